@@ -542,3 +542,9 @@ REPLAY["C09"] = replay_C09
 from props_c15 import check_C15, replay_C15  # noqa: E402
 REGISTRY["C15"] = check_C15
 REPLAY["C15"] = replay_C15
+from props_c16 import check_C16, replay_C16  # noqa: E402
+REGISTRY["C16"] = check_C16
+REPLAY["C16"] = replay_C16
+from props_c17 import check_C17, replay_C17  # noqa: E402
+REGISTRY["C17"] = check_C17
+REPLAY["C17"] = replay_C17
